@@ -248,7 +248,13 @@ def string_family(rng, n):
     for _ in range(n):
         k = rng.randint(0, 6)
         body = "".join(rng.choice(STR_PIECES) for _ in range(k))
-        form = rng.randint(0, 9)
+        form = rng.randint(0, 10)
+        if form == 10:
+            # a string expression (macro element inside) that is never closed, with doubled quotes / line feeds in its tail
+            tail = "".join(rng.choice(['""', "a", " ", "it", "\n", "\u00e9", "'", "''", "%", "&", ";", "b"]) for _ in range(rng.randint(0, 5)))
+            head = "".join(rng.choice(['""', "a", " ", "x="]) for _ in range(rng.randint(0, 2)))
+            out.append(rng.choice(["", "title ", "%put ", "%let a=", "x="]) + '"' + head + rng.choice(["&v", "&v.", "%m", "%m(a)", "&&v&i", "%str(a)"]) + tail)
+            continue
         if form <= 1:
             s = "'" + body.replace("'", "''") + "'" + rng.choice(STR_SUFFIX)
         elif form <= 3:
